@@ -154,6 +154,14 @@ def check(case, res):
                             'routine playing on the clock (%d)' % (i, op, root, [r for r in new if r != root], root)))
         # the clock re-schedules the woken routine iff it returned a number (int/float, not bool), at time + delta.
         # Only judged when the bodies made no calls during this op (they could have scheduled things themselves).
+        # the routine this op entered is Running for as long as any body code of this op executes: every stop / pause /
+        # reset / next aimed at it from ANY routine nested below it must have been refused
+        if root is not None:
+            for e in (res.get('log') or [])[prev.get('loglen', 0):s['loglen']]:
+                if e[1] == 3 and e[2] in (0, 1, 2, 4) and e[3] == root and e[-2:] not in ([1, 3], [1, 8]):
+                    bad.append(('ancestor_op', 'self_stop_pause_reset_refused', i,
+                                'op %d %s: routine %d, nested below the running routine %d, called its %s() and was not refused '
+                                '(outcome %s)' % (i, op, e[0], root, {0: 'next', 1: 'stop', 2: 'pause', 4: 'reset'}[e[2]], e[-2:])))
         if op[0] == 'tick' and prev['queue']:
             t0, r0 = prev['queue'][0]
             made_calls = any(e[1] == 3 for e in (res.get('log') or [])[prev.get('loglen', 0):s['loglen']])
